@@ -203,6 +203,17 @@ func scenario(c *vf.Case) {
 		factories = append(factories, fixedFactory{b.I})
 		s.desc += b.Desc + " "
 	}
+	// a contiguous run of members wrapped into a chain of its own (a Registry.Build result used as
+	// a member of an outer chain): binding order, and so every expectation below, is unchanged
+	if len(members) >= 2 && r.Chance(0.3) {
+		i := r.Intn(len(members) - 1)
+		j := i + 1 + r.Intn(len(members)-i)
+		inner := interceptor.NewChain(append([]interceptor.Interceptor(nil), members[i:j]...))
+		members = append(append(append([]interceptor.Interceptor(nil), members[:i]...), inner), members[j:]...)
+		factories = append(append(append([]interceptor.Factory(nil), factories[:i]...), fixedFactory{inner}), factories[j:]...)
+		s.desc += fmt.Sprintf("(members %d..%d nested in an inner chain) ", i, j-1)
+		c.Add("chains_with_nested_chain", 1)
+	}
 	viaRegistry := r.Bool()
 	if viaRegistry {
 		reg := &interceptor.Registry{}
@@ -619,7 +630,9 @@ func (s *sc) rtpRead(m *rstream) {
 	if sh.ExtKind == 3 && m.opts.TWCCID != 0 {
 		sh.ExtKind = 1
 	}
-	sh.Padding = 0
+	if sh.Padding > 64 || fail {
+		sh.Padding = 0 // RFC 3550 padding travels with well-formed incoming packets too
+	}
 	h := gen.Header(r, sh, m.opts.SSRC, m.opts.PT, seq, ts, uint8(m.opts.TWCCID))
 	if m.opts.TWCCID != 0 {
 		ext, _ := (&rtp.TransportCCExtension{TransportSequence: tw}).Marshal()
